@@ -145,6 +145,13 @@ C12_PARTS.append(
      "args": {"quick": {"graphs": 1}, "thorough": {"graphs": 2}},
      "trace": {"module": "TraceGeffMap.tla", "consts": {}}})
 
+# every name map of a small universe through the builder's validate_name_map (and tracks_from_df)
+C12_PARTS.append(
+    {"name": "map_validation", "driver": "mapvalid",
+     "design": {"module": "MapValid.tla", "invariants": ["Inv_Map", "Inv_Model"], "consts": {}},
+     "args": {},
+     "trace": {"module": "TraceMapValid.tla", "consts": {}}})
+
 PROPS = {
     "C12": (C12_PARTS,
             "all node tables up to the stated number of rows: every id-name assignment (duplicates), every parent reference (none / any row / "
